@@ -477,7 +477,96 @@ func runC12(c *Ctx) {
 			}
 			extra = guardText(g)
 		}
+		if sk, _ := iterationCanSkip(test, nil); sk && extra == "" {
+			extra = "a condition that moves on to the next rule without running the test"
+		}
 		c.check(extra == "", key, instrPos(test), "the test runs for every element of the rule map", "the "+mt.callee+" test is skipped under "+extra+": a rule that describes the name is never consulted (false negative)")
+	}
+
+	// ---------------------------------------------------------------- R10
+	c.rule("R10", "the trie walk stops at the first label that has no child (labels must be consecutive from the right); every rule handed to MixMatcher.Add reaches a sub-matcher's Add, as written", 3)
+	if mf := c.fn(relDomain, "SubDomainMatcher", "Match"); mf != nil {
+		var scan ssa.Instruction
+		eachInstr(mf, func(in ssa.Instruction) {
+			if ci, ok := in.(*ssa.Call); ok && strings.HasSuffix(callName(ci), "ReverseDomainScanner).Scan") {
+				scan = in
+			}
+		})
+		n := 0
+		eachInstr(mf, func(in ssa.Instruction) {
+			ci, ok := in.(*ssa.Call)
+			if !ok || !strings.HasSuffix(callName(ci), ".getChild") {
+				return
+			}
+			for _, r := range referrers(ci) {
+				bo, ok := r.(*ssa.BinOp)
+				if !ok || !isNilConst(bo.Y) {
+					continue
+				}
+				for _, r2 := range referrers(bo) {
+					iff, ok := r2.(*ssa.If)
+					if !ok {
+						continue
+					}
+					n++
+					nilBlk := succOnTruth(iff, bo.Op == token.EQL)
+					_, again := reachFromBlock(nilBlk, func(x ssa.Instruction) bool { return x == scan }, nil)
+					c.check(scan != nil && !again, "walk-stops-at-missing-label", instrPos(iff), "a missing child ends the walk",
+						"after a label without a child the walk goes on with the next label: the rule's labels only need to be a subsequence of the name's labels, so domain:login.example.com matches login.evil.example.com")
+				}
+			}
+		})
+		if n == 0 {
+			c.anchorMissing("nil test of getChild in SubDomainMatcher.Match")
+		}
+	}
+	if af := c.fn(relDomain, "MixMatcher", "Add"); af != nil {
+		var addCall *ssa.Call
+		matchCall := ""
+		eachInstr(af, func(in ssa.Instruction) {
+			ci, ok := in.(*ssa.Call)
+			if !ok {
+				return
+			}
+			if ci.Call.IsInvoke() && ci.Call.Method.Name() == "Add" {
+				addCall = ci
+			}
+			if (ci.Call.IsInvoke() && ci.Call.Method.Name() == "Match") || strings.HasSuffix(callName(ci), ").Match") {
+				matchCall = callName(ci)
+			}
+		})
+		good, why := addCall != nil && matchCall == "", ""
+		if matchCall != "" {
+			why = "Add consults " + matchCall + " before storing"
+		}
+		for _, r := range returnsOf(af) {
+			rv := returnedValues(r)[0]
+			if addCall != nil && rv == ssa.Value(addCall) {
+				continue
+			}
+			if isNilConst(rv) {
+				good, why = false, "a path returns nil without handing the rule to a sub-matcher"
+			}
+		}
+		c.check(good, "every-rule-stored@MixMatcher.Add", af.Pos(), "every accepted rule is handed to its sub-matcher's Add", why+": the rule is silently dropped, so the value of a more specific rule (full over domain) is lost")
+	}
+	if lf := p.Func(relDomain, "", "Load"); lf != nil {
+		c.see(lf)
+		good := false
+		eachInstr(lf, func(in ssa.Instruction) {
+			ci, ok := in.(*ssa.Call)
+			if !ok || !ci.Call.IsInvoke() || ci.Call.Method.Name() != "Add" {
+				return
+			}
+			if ex, ok := ci.Call.Args[0].(*ssa.Extract); ok && ex.Index == 0 {
+				if cl, ok := ex.Tuple.(*ssa.Call); ok && callName(cl) == "dynamic" {
+					good = true
+				}
+			}
+		})
+		c.check(good, "load-passes-pattern-as-parsed", lf.Pos(), "Load hands the parsed pattern to Add unchanged", "Load alters the pattern between the parse function and Add (e.g. case folding): regexp rules change meaning")
+	} else {
+		c.anchorMissing("domain.Load")
 	}
 
 }
